@@ -491,4 +491,69 @@ def netIfAddrsEntry (cfg : Cfg) (windows : Bool) (r : RawAddr) : OutAddr :=
     | none => nt
   else nt
 
+/-! ## Front end: the other platform-conditional branches that transform a value
+  (`psutil/__init__.py`; the full list of branches with their tests is the translator fact
+  `frontBranches`, classified in `Spec.frontBranches`) -/
+
+/-- `Process.ppid()`: `if POSIX: return self._proc.ppid()` else
+    `self._ppid = self._ppid or self._proc.ppid(); return self._ppid`. Result and new cache. -/
+def frontPpid (posix : Bool) (cached : Option Nat) (native : Nat) : Nat × Option Nat :=
+  if posix then (native, cached)
+  else
+    let v := match cached with
+      | some c => if c != 0 then c else native     -- `or`: a cached 0 is falsy
+      | none => native
+    (v, some v)
+
+/-- what `self.cmdline()` gives inside `Process.name()`: AccessDenied / ZombieProcess are swallowed -/
+inductive CmdlineRes
+  | ok (argv : List String)
+  | swallowed
+  deriving DecidableEq, Repr
+
+/-- `os.path.basename` (posixpath): what follows the last "/" -/
+def posixBasename (s : String) : String := ((s.splitOn "/").getLast?).getD ""
+
+/-- `Process.name()` (ASCII names: `len(os.fsencode(name))` = number of characters):
+    Windows returns the cached `_name` when there is one; POSIX completes a name of ≥ 15
+    bytes from `basename(cmdline[0])` when that starts with it. The result is stored in `_name`. -/
+def frontName (windows posix : Bool) (cached : Option String) (native : String) (cmd : CmdlineRes) : String :=
+  match windows, cached with
+  | true, some c => c
+  | _, _ =>
+    if posix && native.length ≥ 15 then
+      match cmd with
+      | .ok (a0 :: _) =>
+        let ext := posixBasename a0
+        if native.toList.isPrefixOf ext.toList then ext else native
+      | _ => native
+    else native
+
+/-- `Process.username()`: POSIX → `pwd.getpwuid(self.uids().real).pw_name`, `str(real_uid)` when the
+    uid is unknown; otherwise the platform layer's answer -/
+def frontUsername (posix : Bool) (realUid : Nat) (pw : Option String) (native : String) : String :=
+  if posix then (match pw with | some n => n | none => toString realUid) else native
+
+/-- `psutil.pid_exists(pid)`: negative → False; `pid == 0 and POSIX` → `0 in pids()`; else the platform's -/
+def frontPidExists (posix : Bool) (pid : Int) (pids : List Nat) (native : Bool) : Bool :=
+  if pid < 0 then false
+  else if pid == 0 && posix then pids.contains 0
+  else native
+
+/-- `Process.cpu_affinity(cpus)` with an empty list: every CPU (`range(len(cpu_times(percpu=True)))` off
+    Linux); otherwise the given CPUs as a set. What is handed to the platform layer (as a set). -/
+def frontAffinityArg (linux : Bool) (ncpu : Nat) (cpus : List Nat) : List Nat :=
+  if cpus.isEmpty then (if linux then List.range 1024 else List.range ncpu) else cpus.eraseDups
+
+/-- `disk_io_counters()`: keyword arguments handed to the platform function, name of the nowrap history -/
+def frontDiskKwargs (linux perdisk : Bool) : List (String × Bool) :=
+  if linux then [("perdisk", perdisk)] else []
+def frontDiskCacheName (perdisk : Bool) : String :=
+  if perdisk then "psutil.disk_io_counters.perdisk" else "psutil.disk_io_counters"
+/-- system-wide form: column sums over the disks -/
+def frontDiskTotal (rows : List (List Nat)) : List Nat :=
+  match rows with
+  | [] => []
+  | r :: rs => rs.foldl (fun acc x => List.zipWith (· + ·) acc x) r
+
 end Psutil.C20
